@@ -107,6 +107,44 @@ M = [
     ("src/search/eval.rs", "score += KING_PAWN_SHIELD *", "score += ROOK_OPEN_FILE *", "B"),
     ("src/search/eval.rs", "eval_us(pos) - eval_us(&Position::from_flipped(pos))", "eval_us(pos) + eval_us(&Position::from_flipped(pos))", "B"),
     ("src/search/eval.rs", "score += PST[i][sq.0 as usize];", "score += PST[i][sq.flip().0 as usize];", "B"),
+    # ---- move_generator.rs
+    ("src/chess/move_generator.rs", "            if to.rank() == 7 {\n                func(Piece::Pawn, Square(to.0 - 8), to, Piece::Queen);", "            if to.rank() == 6 {\n                func(Piece::Pawn, Square(to.0 - 8), to, Piece::Queen);", "B"),
+    ("src/chess/move_generator.rs", "func(Piece::Pawn, Square(to.0 - 8), to, Piece::Queen);", "func(Piece::Pawn, Square(to.0 - 7), to, Piece::Queen);", "B"),
+    ("src/chess/move_generator.rs", "                func(Piece::Pawn, Square(to.0 - 9), to, Piece::Queen);\n                func(Piece::Pawn, Square(to.0 - 9), to, Piece::Rook);\n",
+     "                func(Piece::Pawn, Square(to.0 - 9), to, Piece::Rook);\n                func(Piece::Pawn, Square(to.0 - 9), to, Piece::Queen);\n", "B"),
+    ("src/chess/move_generator.rs", "Bitboard(0xFF000000)", "Bitboard(0xFF0000)", "B"),
+    ("src/chess/move_generator.rs", "            .north()\n            .east()", "            .north()\n            .west()", "B"),
+    ("src/chess/move_generator.rs", "func(Piece::Pawn, Square(ep.0 - 9), ep, Piece::None);", "func(Piece::Pawn, Square(ep.0 - 7), ep, Piece::None);", "B"),
+    ("src/chess/move_generator.rs", "if (allowed.is_set(ep) || allowed.north().is_set(ep))", "if (allowed.is_set(ep) && allowed.north().is_set(ep))", "B"),
+    ("src/chess/move_generator.rs", "for from in self.get_knights() & self.get_us() & !pinned {", "for from in self.get_knights() & self.get_us() & pinned {", "B"),
+    ("src/chess/move_generator.rs", "for to in mask & allowed & bxrays {\n                func(Piece::Bishop", "for to in mask & allowed {\n                func(Piece::Bishop", "B"),
+    ("src/chess/move_generator.rs", "func(Piece::Queen, from, to, Piece::None);", "func(Piece::Rook, from, to, Piece::None);", "B"),
+    ("src/chess/move_generator.rs", "                    self.get_occupied() ^ kbb,", "                    self.get_occupied() | kbb,", "B"),
+    ("src/chess/move_generator.rs", "        if self.us_ksc\n            && !in_check", "        if self.us_ksc\n            && in_check", "B"),
+    ("src/chess/move_generator.rs", "let ksc_king_path = line_between(ksq, Square::from_index(SquareIdx::G1));", "let ksc_king_path = line_between(ksq, Square::from_index(SquareIdx::F1));", "B"),
+    ("src/chess/move_generator.rs", "&& !self.is_bb_attacked(qsc_king_path, Side::Them)", "&& !self.is_bb_attacked(qsc_king_path, Side::Us)", "B"),
+    ("src/chess/move_generator.rs", "if all_attackers.count() > 1 {", "if all_attackers.count() > 2 {", "B"),
+    ("src/chess/move_generator.rs", "xrays |= xray | ray_ne;", "xrays |= xray | ray_nw;", "B"),
+    ("src/chess/move_generator.rs", "        for from in self.get_kings() & self.get_us() {\n            let kbb", "        for from in self.get_kings() & self.get_them() {\n            let kbb", "B"),
+    # ---- count_moves.rs
+    ("src/chess/count_moves.rs", "            4 * ((pawns_promo & !(hpinned | bpinned)).north()", "            3 * ((pawns_promo & !(hpinned | bpinned)).north()", "B"),
+    ("src/chess/count_moves.rs", "Bitboard(0xFFFFFFFFFFFF)", "Bitboard(0xFFFFFFFFFF)", "B"),
+    ("src/chess/count_moves.rs", "                    count += 1;", "                    count += 2;", "B"),
+    ("src/chess/count_moves.rs", "count += (mask & allowed & rxrays).count()\n", "count += (mask & allowed).count()\n", "B"),
+    ("src/chess/count_moves.rs", "for to in Bitboard::from_square(from).adjacent() & !self.get_us() {", "for to in Bitboard::from_square(from).adjacent() & self.get_us() {", "B"),
+    ("src/chess/count_moves.rs", "let mut count = 0;", "let mut count = 1;", "B"),
+    ("src/chess/count_moves.rs", "let rq = self.get_them() & (self.get_rooks() | self.get_queens());", "let rq = self.get_them() & (self.get_rooks() | self.get_kings());", "B"),
+    ("src/chess/count_moves.rs", "let pinned = bpinned | rpinned;", "let pinned = bpinned & rpinned;", "B"),
+    # ---- legal_captures.rs, legal_moves.rs
+    ("src/chess/legal_captures.rs", "if !is_normal_capture && !is_ep_capture {", "if !is_normal_capture || !is_ep_capture {", "B"),
+    ("src/chess/legal_captures.rs", "piece == Piece::Pawn && self.ep.is_some()", "piece == Piece::King && self.ep.is_some()", "B"),
+    ("src/chess/legal_captures.rs", "to == self.ep.unwrap()", "from == self.ep.unwrap()", "B"),
+    ("src/chess/legal_moves.rs", "movelist.push(Mv { from, to, promo });", "movelist.push(Mv { from: to, to: from, promo });", "B"),
+    # ---- constructs outside the translated subset: TRANSLATE-ERROR
+    ("src/chess/validate.rs", "if (self.get_white() & self.get_black()).is_occupied() {", "if (self.get_white() & self.get_black()).is_full() {", "B"),
+    ("src/chess/makemove.rs", "let ksq_us = (self.get_us() & self.get_kings()).lsb();", "let ksq_us = (self.get_us() & self.get_kings()).hsb();", "B"),
+    ("src/chess/flip.rs", "self.turn = !self.turn;", "self.turn = match self.turn { Colour::White => Colour::Black, Colour::Black => Colour::White };", "N"),
+    ("src/chess/zobrist.rs", "        hash ^= KEYS_TURN;\n\n        hash\n", "        hash ^= KEYS_TURN;\n        while false {}\n\n        hash\n", "N"),
 ]
 
 
